@@ -702,18 +702,55 @@ func c14R4(c *Ctx) {
 			c.check(hit == nil, ps.fn+"/transferring+marker=>reset."+m, c.ipos(read), "a chunk with this end marker, read while transferring, always resets the relay before the next read", "a chunk carrying "+m+" read while the relay is 'transferring' can pass without the reset: the relay stays in transfer mode after the transfer ended", c.pathStr(path)...)
 		}
 	}
-	// client-input pump: lone Ctrl-C
-	f := c.fn("TrzszRelay.wrapInput")
-	ctrlc := false
-	for _, r := range callsIn(f, idIs("(*trzsz.TrzszRelay).resetToStandby")) {
-		fs := factsAt(r.Block())
-		one := factCmp(fs, token.EQL, func(v ssa.Value) bool { lc, _ := callOf(v); return lc != nil && calleeID(&lc.Call) == "builtin len" }, isConstIntV(1))
-		three := factCmp(fs, token.EQL, anyValue, isConstIntV(3))
-		if one && three {
-			ctrlc = true
+	// client-input pump: lone Ctrl-C. Universal form: a one-byte chunk 0x03 read while transferring cannot get to the
+	// next read without the reset, however the test is combined with the marker tests.
+	{
+		f := c.fn("TrzszRelay.wrapInput")
+		var read *ssa.Call
+		eachInstr(f, func(in ssa.Instruction) {
+			if call, ok := in.(*ssa.Call); ok && call.Call.IsInvoke() && call.Call.Method.Name() == "Read" {
+				read = call
+			}
+		})
+		if read == nil {
+			c.lost("Read in TrzszRelay.wrapInput")
 		}
+		n := extractOf(read, 0)
+		isStatus := func(v ssa.Value) bool {
+			for _, l := range origins(v, originOpts{}) {
+				call, _ := callOf(l.V)
+				if call == nil {
+					return false
+				}
+				if !isAtomicOnField(call, "relayStatus", "Load") && calleeID(&call.Call) != "(*trzsz.TrzszRelay).addHandshakeBuffer" {
+					return false
+				}
+			}
+			return true
+		}
+		isLen := func(v ssa.Value) bool {
+			lc, _ := callOf(v)
+			return lc != nil && calleeID(&lc.Call) == "builtin len"
+		}
+		isFirstByte := func(v ssa.Value) bool {
+			u, ok := strip(v).(*ssa.UnOp)
+			if !ok || u.Op != token.MUL {
+				return false
+			}
+			ia, ok := u.X.(*ssa.IndexAddr)
+			return ok && isConstIntV(0)(ia.Index)
+		}
+		as := []assumption{valueIs(isStatus, tr), valueIs(isValue(n), 1), valueIs(isLen, 1), valueIs(isFirstByte, 3)}
+		hit, path := reachFromE(read.Block(), instrIndex(read)+1, func(in ssa.Instruction) bool { return in == ssa.Instruction(read) || isReturn(in) }, c.orWrapper("relay-reset", func(in ssa.Instruction) bool {
+			ci, ok := in.(ssa.CallInstruction)
+			return ok && calleeID(ci.Common()) == "(*trzsz.TrzszRelay).resetToStandby"
+		}), contradicts(as))
+		pos := c.pos(f.Pos())
+		if hit != nil {
+			pos = c.ipos(hit)
+		}
+		c.check(hit == nil, "TrzszRelay.wrapInput/ctrl-c", pos, "a lone Ctrl-C from the client, read while transferring, always resets the relay before the next read", "the client-input pump no longer resets on a lone Ctrl-C", c.pathStr(path)...)
 	}
-	c.check(ctrlc, "TrzszRelay.wrapInput/ctrl-c", c.pos(f.Pos()), "a lone Ctrl-C from the client resets the relay", "the client-input pump no longer resets on a lone Ctrl-C")
 	// markers are '#'+type+':' of the types actually used by the ends
 	types_ := map[string]bool{}
 	for _, nm := range []struct {
@@ -853,12 +890,27 @@ func c14R7(c *Ctx) {
 	for _, p := range pops {
 		pv := p.Value()
 		_, fld, _ := fieldOf(p.Common().Args[0])
+		// the popped chunk itself, or the loop variable of `for buf := pop(); buf != nil; buf = pop()` that carries it
+		fromPop := func(v ssa.Value) bool {
+			if v == ssa.Value(pv) {
+				return true
+			}
+			if _, isPhi := v.(*ssa.Phi); !isPhi {
+				return false
+			}
+			for _, l := range origins(v, originOpts{}) {
+				if l.V == ssa.Value(pv) {
+					return true
+				}
+			}
+			return false
+		}
 		sendsBuf := func(in ssa.Instruction) bool {
 			s, ok := in.(*ssa.Send)
-			return ok && s.X == ssa.Value(pv)
+			return ok && fromPop(s.X)
 		}
 		nilEdge := func(from, to *ssa.BasicBlock) bool {
-			return factCmp(edgeFactsTo(from, to), token.EQL, isValue(pv), isNilConst)
+			return factCmp(edgeFactsTo(from, to), token.EQL, fromPop, isNilConst)
 		}
 		hit, path := reachFromE(p.Block(), instrIndex(p.(ssa.Instruction))+1, func(in ssa.Instruction) bool { return isPop(in) || isReturn(in) }, sendsBuf, nilEdge)
 		c.check(hit == nil, "flush/"+fld+"/every-pop-forwarded", c.ipos(p), "every chunk popped is forwarded before the next pop; the loop ends on the empty pop", "a popped chunk can be dropped (or the loop can end with chunks still parked)", c.pathStr(path)...)
